@@ -1,10 +1,10 @@
 SPECIFICATION Spec
 CONSTANTS
-  Clients = {"c1", "c2", "c3"}
+  Clients = {"c1", "c2"}
   Names = {"a"}
   MaxOps = 2
   MaxTotal = 4
-  OwnDepth = 2
+  OwnDepth = 3
 INVARIANTS DisjointIndependence WellFormedInv
 PROPERTIES Confined
 CHECK_DEADLOCK FALSE
